@@ -76,8 +76,8 @@ MUTATIONS = [
          old="            (ts.start.t, ts.musical_beats if part._use_musical_beat else ts.beats)\n            for ts in part.iter_all(TimeSignature)",
          new="            (ts.start.t, MUSICAL_BEATS.get(ts.beats, ts.beats) if part._use_musical_beat else ts.beats)\n            for ts in part.iter_all(TimeSignature)"),
     # fill_rests given a Score
-    dict(prop="C11", name="audit-fill-rests-score-not-unpacked", file="partitura/score.py", count=2,
-         old="    if isinstance(score_data, Score):\n        partlist = score_data.parts\n    else:\n        partlist = [score_data]\n    for part in partlist:\n        measures = part.measures",
+    dict(prop="C11", name="audit-fill-rests-score-not-unpacked", file="partitura/score.py",
+         old="    if isinstance(score_data, Score):\n        partlist = score_data.parts\n    else:\n        # a Part, a PartGroup or a list of these\n        partlist = list(iter_parts(score_data))\n    for part in partlist:\n        measures = part.measures",
          new="    partlist = [score_data]\n    for part in partlist:\n        measures = part.measures"),
     # sanitize_part(part, tie_tolerance > 0) must leave contiguous tie chains alone
     dict(prop="C11", name="audit-sanitize-tie-tolerance-inverted", file="partitura/score.py",
